@@ -238,7 +238,7 @@ CHECKS = {
                 "evaluated under 3-5 index configurations over the same columns (none; schema single/multi; client single/multi incl. "
                 "optional and map-key; mixtures). For every configuration RowCache.RowsByCondition, Database.List(conds...) and a select "
                 "operation must return exactly the uuids an independent evaluator of RFC 7047 5.1 returns (refdb.EvalCond), hence the "
-                "same answer under every configuration. A quarter of the rows reach their contents in two steps (created with other values in one to three columns, then updated), so that index entries have been moved before the queries run. TestC08API (server + connected client monitoring everything, one index configuration per case) checks "
+                "same answer under every configuration. A quarter of the rows reach their contents in two steps (created with other values in one to three columns, then updated), so that index entries have been moved before the queries run. One case in eight holds sets of 17-100 elements, and set conditions (includes, excludes, ==, !=) are built from parts of a stored set; with a schema index on s0 alone, a checked Create repeating the s0 of a cached row precedes the queries and must be refused without trace (one configuration lists a multi-column index before it). TestC08API (server + connected client monitoring everything, one index configuration per case) checks "
                 "WhereAll/WhereAny/WhereCache/Where(model)/Where(models...).List against predictions (all / any / predicate / first index, in the order uuid, "
                 "schema indexes, client indexes, that finds a row) and that executing the operations generated by Delete(), Update(model, 1-2 drawn columns with drawn values) "
                 "or Mutate(model, a drawn valid mutation of the set, map or a numeric column) has exactly the effect the reference interpreter computes for one "
@@ -262,7 +262,7 @@ CHECKS = {
                 "Mapper.GetRowData into a model pre-filled with sentinels, and -> model.CreateModel: every mapped field must come back equal "
                 "(sets as sets); with the default NewRow and after dropping drawn columns the absent columns keep their sentinels; NativeToOvs/"
                 "SetField with any other Go type and OvsToNative with a wire value of another kind (per column kind: ~10 wrong shapes) must "
-                "return an error; CreateModel from a sparse or empty row still yields a model carrying the uuid; a model struct whose field for a drawn column has another Go type - including types the native value is assignable or convertible to (interface{}, a defined type over the same underlying type) - must be refused by the schema-driven type check. Half of the sparse-row conversions come right after a row of the same table was rejected for one wrongly typed column. Non-trivial = >=1 collection/optional column with a non-default value; distinct = hash of the table's type signature.",
+                "return an error; CreateModel from a sparse or empty row still yields a model carrying the uuid; a model struct whose field for a drawn column has another Go type - including types the native value is assignable or convertible to (interface{}, a defined type over the same underlying type) - must be refused by the schema-driven type check. Half of the sparse-row conversions come right after a row of the same table was rejected for one wrongly typed column. After both models are decoded from one row, every pointer, slice element and map entry of the first one is written through: the second one and the next decode of the row must be unaffected. Non-trivial = >=1 collection/optional column with a non-default value; distinct = hash of the table's type signature.",
         "assumptions": COMMON_ASSUMPTIONS + [
             "integers are kept within +-2^53 (known finding int53); reals are finite; strings valid UTF-8",
             "a JSON number for an integer column is the designed decoding path (float64 -> int), not a type mismatch",
@@ -300,7 +300,7 @@ CHECKS = {
                 "insert of the final row / one delete carrying the original row / one modify whose difference applied to the first old value "
                 "gives the last new value and names no column that is back to its original value; nothing at all (table absent from "
                 "GetUpdatedTables) if the row ends as it began or is inserted and deleted; GetModel/GetRow return the last state; a bystander row of the same table receives changes in between and must keep exactly its own net update whatever happens to the first row (also when that one cancels out). Expected "
-                "states come from the reference rules (refdb.ApplyMutation). One case in about eight draws collections of 9-120 elements. Non-trivial = sequence of length >=3 or one that restores a "
+                "states come from the reference rules (refdb.ApplyMutation). One case in about eight draws collections of 9-120 elements. While the aggregate holds changes of the row, a second insert of it is sometimes merged in between: it must be refused and leave the aggregate as it was. Non-trivial = sequence of length >=3 or one that restores a "
                 "column; distinct = hash of (type signature, operation/mutator sequence).",
         "assumptions": COMMON_ASSUMPTIONS + ["only mutations the implementation supports are generated (see C03 tolerance classes)"],
         "level_text": "exploration: generated operation sequences on one row with net-update laws checked after every step",
@@ -318,7 +318,7 @@ CHECKS = {
                 "RowsByCondition with and without conditions) is mutated too: every path must still return the stored value. Event-handler "
                 "arguments are covered by C14. TestC13API does the same through a connected client (server, MonitorAll): List into []T and []*T, "
                 "WhereCache/Where(models)/WhereAny(...).List into both, Get, Cache().Table().Row/Rows; 1-3 mutations of returned models, then every path "
-                "must return the rows the database holds; conditionals are reused for several reads (a later List on the same ConditionalAPI must not hand out memory an earlier one returned). The row RowCache.Update hands back (for an update that changes nothing) is one of the read paths; the hand-written model has its untagged field in the middle. TestC13Large: tables of 300, 1027, 2051 and 4100 rows read in full through Rows, RowsByCondition and row by row, every returned model scribbled over: the cache must still hold what was stored. Non-trivial = a mutation through a non-empty slice, map or "
+                "must return the rows the database holds; conditionals are reused for several reads (a later List on the same ConditionalAPI must not hand out memory an earlier one returned). The row RowCache.Update hands back (for an update that changes nothing) is one of the read paths; the hand-written model has its untagged field in the middle. The hand-written family has a client index, and a look-up resolved through it is a read path. TestC13Large: tables of 300, 1027, 2051 and 4100 rows read in full through Rows, RowsByCondition and row by row, every returned model scribbled over: the cache must still hold what was stored. Non-trivial = a mutation through a non-empty slice, map or "
                 "pointer; distinct = hash of (family, read path, write path, mutation kind).",
         "assumptions": COMMON_ASSUMPTIONS + [
             "RowsShallow is the documented read-only exception",
@@ -391,7 +391,7 @@ CHECKS = {
                 "Database.List) contains something it selected: the right method and monitor id, no empty table entries, exactly the "
                 "selected rows with the right kind, no unselected column, and state-before + message (applied with the harness' own update / "
                 "update2 rules) = state-after on the monitored columns; old values must be the previous values. Failed transactions must "
-                "produce no message at all. A peer may answer a drawn notification with a JSON-RPC error (it stays connected and monitoring: what it is told afterwards must not depend on that). One case in about eight runs in the Big mode (sets of up to 120 elements growing and shrinking). TestC07L1: the same pre + update = post law on database.Update for thousands of L1 histories "
+                "produce no message at all. A peer may answer a drawn notification with a JSON-RPC error (it stays connected and monitoring: what it is told afterwards must not depend on that). One case in about eight runs in the Big mode (sets of up to 120 elements growing and shrinking). In a third of the cases one peer sets up a second monitor (any method, all tables, another id) on its connection; its messages are set aside, the first monitor is checked as before. TestC07L1: the same pre + update = post law on database.Update for thousands of L1 histories "
                 "(GC, pruning, merges). A third of TestC07L1 uses the reference-heavy profile (multi-round collections, rows pruned more than once). TestC07Order (one notification per commit, in commit order, under concurrency): 2-4 connections each commit 1-4 "
                 "increments of one counter at the same time while 2-3 monitoring peers (any method) acknowledge their notifications with drawn delays "
                 "(0-8 ms): every monitor must be told exactly the values 1..N in this order. Non-trivial = transaction with >=2 net row changes (wire) / GC, pruning or multi-operation "
@@ -437,7 +437,7 @@ CHECKS = {
                 "re-establish 1-3 monitors and converge within 20 s. TestC16Outage: the endpoint is unreachable for 2-4 times the reconnect "
                 "timeout while other clients commit; TestC16Silent: the connection goes silent (the proxy keeps acknowledging the server's calls) while "
                 "the application keeps calling Transact with deadlines shorter than the inactivity timeout - a second connection must appear within 15 s; "
-                "both end with the convergence oracle. TestC16Large: 66000 + 1200 monitored rows (more than the 65536 entries of the event buffer), two cuts with deletions and insertions meanwhile. After every convergence the client indexes on T0.marker and T1.name are compared with a scan of the cache. Non-trivial = cut after the 6th message (monitor set-up begun) "
+                "both end with the convergence oracle. TestC16Large: 66000 + 1200 monitored rows (more than the 65536 entries of the event buffer), two cuts with deletions and insertions meanwhile. Scripts contain transactions the client refuses itself (unknown column: nothing is sent). A scenario that does not finish because goroutines have been waiting for minutes on mutexes inside libovsdb/client is reported as reconnect.wedged. After every convergence the client indexes on T0.marker and T1.name are compared with a scan of the cache. Non-trivial = cut after the 6th message (monitor set-up begun) "
                 "resp. a parked window with foreign commits inside; distinct = (scenario, direction, k, mode) resp. (monitors, k, foreign kinds).",
         "assumptions": COMMON_ASSUMPTIONS + [
             "enumerated scenarios run without the inactivity probe so that the fault-free message sequence is the same in every run up to the cut",
@@ -472,7 +472,7 @@ CHECKS = {
                 "transactions in order pi on refdb reproduces every count/uuid each client received and the final Database.List; every failed "
                 "transaction fails at some position of pi compatible with its client's order; closed forms: counters = sum of committed "
                 "deltas, each contested key has exactly one winner; the caching client's cache equals the database at the end; no race report "
-                "involving libovsdb code. Programs also detach a child from a parent (a child no parent holds is garbage collected), alone or together with a claim of a contested key - when the claim fails nothing of the detachment may remain; some children belong to both parents from the start. In two thirds of the runs a bystander monitors a few columns of every table only. TestC17Tokens: 2-5 clients race to take 1-4 tokens with transactions that only delete (optionally after a select or a wait, so they look read-only at first) while monitoring peers acknowledge slowly: each token is taken by exactly one transaction, nobody gets an RPC error, every monitor is told of each deletion once. TestC17MonitorWindow pins, with the server-side verif hook, a monitor set-up between 'monitors "
+                "involving libovsdb code. Programs also detach a child from a parent (a child no parent holds is garbage collected), alone or together with a claim of a contested key - when the claim fails nothing of the detachment may remain; some children belong to both parents from the start. In two thirds of the runs a bystander monitors a few columns of every table only. Half of the bystanders close their connection right after registering (the server keeps their monitors). TestC17Aged: the same programs on a server that has committed 66000 row changes before. TestC17Tokens: 2-5 clients race to take 1-4 tokens with transactions that only delete (optionally after a select or a wait, so they look read-only at first) while monitoring peers acknowledge slowly: each token is taken by exactly one transaction, nobody gets an RPC error, every monitor is told of each deletion once. TestC17MonitorWindow pins, with the server-side verif hook, a monitor set-up between 'monitors "
                 "notified' and 'committed'. Non-trivial = run in which transactions of different clients overlapped in time at least "
                 "twice (measured by invocation/response timestamps); distinct = the observed order pi.",
         "assumptions": COMMON_ASSUMPTIONS + [
@@ -507,7 +507,7 @@ CHECKS = {
                 "Echo, Disconnect, Connect, Close) on one client, with and without reconnect, while a writer commits transactions that keep "
                 "two columns of every row equal and a chaos goroutine cuts the connection 0-3 times through the proxy: no call may exceed "
                 "the bound (a hang is reported with the blocked goroutines' stacks), no reader may obtain a row whose two columns differ, "
-                "the epilogue must succeed, no race report involving libovsdb code. The client of TestC18Concurrent runs without reconnect, with reconnect, or with the inactivity probe (40/120/1000 ms). TestC18Leader: a leader-only client of two servers exporting _Server receives 1-5 drawn updates of the Database rows of the servers (leadership given up or taken, server id replaced or removed, model standalone/clustered, disconnected) in any order; after each one Connected, Echo, Transact, Get and CurrentEndpoint must return within the bound, and once server 0 reports leadership again the client must connect and echo within 20 s. TestC18Large: the history of TestC16Large (67200 rows, two cuts) under the hang watchdog, without the race detector. Non-trivial = every enumerated combination; concurrent "
+                "the epilogue must succeed, no race report involving libovsdb code. The client of TestC18Concurrent runs without reconnect, with reconnect, or with the inactivity probe (40/120/1000 ms). TestC18Leader: a leader-only client of two servers exporting _Server receives 1-5 drawn updates of the Database rows of the servers (leadership given up or taken, server id replaced or removed, model standalone/clustered, disconnected) in any order; after each one Connected, Echo, Transact, Get and CurrentEndpoint must return within the bound, and once server 0 reports leadership again the client must connect and echo within 20 s. TestC18Large: the history of TestC16Large (67200 rows, two cuts) under the hang watchdog, without the race detector. One of the drawn calls lists into a slice of structs and writes through the sets of the result. Non-trivial = every enumerated combination; concurrent "
                 "runs with >=2 calls overlapping a notification or with >=1 cut; distinct = (combination) / (programs, cuts, reconnect).",
         "assumptions": COMMON_ASSUMPTIONS + [
             "liveness verdicts use a 20 s bound for calls whose contexts expire after 1.5-2 s, and the report carries the stacks of the goroutines parked in libovsdb/client",
@@ -534,7 +534,7 @@ CHECKS = {
                 "library generator formats every table and the db model four times (byte-identical), output parses, TYPE-CHECKS with go/types against "
                 "the real model and ovsdb packages (source importer), and for every column the tagged struct field has, after resolving aliases, "
                 "exactly the type string of ovsdb.NativeType(column); with extended generation and enum types independently on/off. "
-                "One template data object configured by a drawn history of option switches (enum types and extended generation switched back and forth, ending at the same settings) and rendered twice must give the files fresh data gives. String enums also occur as map keys and map values. TestC20Compiled (batches of 4-10 packages): the real cmd/modelgen binary built from /repo generates each package twice into two "
+                "One template data object configured by a drawn history of option switches (enum types and extended generation switched back and forth, ending at the same settings) and rendered twice must give the files fresh data gives. String enums also occur as map keys and map values. A third of the cases make the generator refuse a rendering first (template output that is not Go source), and a third use column names no earlier schema of the process has used; TestC20ManyNames renders a schema of 24 tables x 16 columns (about 400 distinct names) twice in one process: byte-identical, type-checks, one field per column. TestC20Compiled (batches of 4-10 packages): the real cmd/modelgen binary built from /repo generates each package twice into two "
                 "directories (byte-identical), with -extended on/off; the scratch module is vetted, compiled and tested: model.NewDatabaseModel("
                 "Schema(), FullDatabaseModel()) must validate, and for 40 reflectively filled values per table the generated CloneModel / "
                 "CloneModelInto / EqualsModel must agree with the generic laws (clone equal, no shared slice/map/pointer, Equal == field-wise "
